@@ -313,7 +313,9 @@ impl Prop for C19 {
                     }
                     RunResult::Ok => {
                         // retried transparently: everything must be as in the fault-free run
-                        if o.events != base.events || o.out != base.out {
+                        // (compared behind the greeting: connection id and salt may differ per connection)
+                        let skip = crate::wire::split_packets(&base.out).0.first().map(|p| p.start + p.len).unwrap_or(0);
+                        if o.events != base.events || o.out.len() != base.out.len() || o.out.get(skip..) != base.out.get(skip..) {
                             ex.fail("c19-eintr-retry-differs", format!("read at operation {} was interrupted and retried, but the conversation differs from the fault-free run ({} callbacks vs {})", k, o.events.len(), base.events.len()));
                             return ex;
                         }
